@@ -269,6 +269,24 @@ func init() {
 								s.hook = vC13Hook
 								s.noMulti = true
 								vBFS(c, s, depth)
+								// aliasing mode: the caller adds the very slices it trained on
+								// (non-zero training vectors only; the value alphabet = the training set)
+								zero := false
+								for _, v := range train {
+									if vIsZero(v) {
+										zero = true
+									}
+								}
+								if !zero && len(seq) <= nl+1 {
+									a := newKindSys(c, cfg, 3)
+									a.train = train
+									a.vals = train
+									a.aliasTrain = true
+									a.cfgS = cfg.String() + " alias trainseq=" + strings.ReplaceAll(fmt.Sprint(seq), " ", ",")
+									a.hook = vC13Hook
+									a.noMulti = true
+									vBFS(c, a, depth)
+								}
 							}
 						}})
 					}
@@ -282,7 +300,8 @@ func init() {
 				_, ok := c.viol[v.Sig()]
 				return ok
 			}
-			parts := strings.Split(v.Config, " trainseq=")
+			alias := strings.Contains(v.Config, " alias trainseq=")
+			parts := strings.Split(strings.Replace(v.Config, " alias trainseq=", " trainseq=", 1), " trainseq=")
 			cfg := vParseVecCfg(parts[0])
 			var seq []int
 			for _, f := range strings.Split(strings.Trim(parts[1], "[]"), ",") {
@@ -297,6 +316,10 @@ func init() {
 			}
 			s := newKindSys(c, cfg, 3)
 			s.train = train
+			if alias {
+				s.vals = train
+				s.aliasTrain = true
+			}
 			s.cfgS = v.Config
 			s.hook = vC13Hook
 			s.noMulti = true
